@@ -9,6 +9,8 @@ import (
 	"encoding/json"
 	"errors"
 	"fmt"
+	"sort"
+	"strings"
 
 	"github.com/nyaruka/goflow/flows"
 	"github.com/nyaruka/goflow/flows/engine"
@@ -31,6 +33,64 @@ type Cfg struct {
 	Key func(t *Trans) string
 	// OnNewState is called once for every distinct state (after deduplication).
 	OnNewState func(t *Trans)
+	// Ctx, when set, makes the search of this root a "risky case": if an engine call never returns or
+	// kills the process, the driver attributes it to this root, confirms it by searching the root
+	// alone (Single) and continues without it.
+	Ctx *mc.Ctx
+}
+
+// riskyDesc is what is recorded for a root under search.
+type riskyDesc struct {
+	Root    *world.Root `json:"root"`
+	Depth   int         `json:"depth"`
+	Events  []string    `json:"events"`
+	Regimes []bool      `json:"regimes"`
+	Bound   int         `json:"bound"`
+}
+
+// Single re-runs the search of one root alone, without oracles (used to confirm a hang or crash).
+func Single(c *mc.Ctx, desc string) string {
+	var d riskyDesc
+	if err := json.Unmarshal([]byte(desc), &d); err != nil || d.Root == nil {
+		return "bad desc"
+	}
+	st := Search(d.Root, Cfg{Depth: d.Depth, Events: d.Events, Regimes: d.Regimes, ChoiceBound: d.Bound})
+	return fmt.Sprintf("search of the root returned: %d states", st.States)
+}
+
+// DescribeRisky renders a risky desc for messages and gives the set of node kinds of its flows.
+func DescribeRisky(desc string) (text string, kinds string) {
+	var d riskyDesc
+	if err := json.Unmarshal([]byte(desc), &d); err != nil || d.Root == nil {
+		return desc, "unknown"
+	}
+	text = fmt.Sprintf("trigger=%s opt=%+v", d.Root.Trigger, d.Root.Opt)
+	set := map[string]bool{}
+	if d.Root.Flows != nil {
+		text = "flows: " + d.Root.Flows.String() + " " + text
+		for _, f := range d.Root.Flows.Flows {
+			for _, n := range f.Nodes {
+				set[n.Kind] = true
+			}
+		}
+	}
+	var ks []string
+	for k := range set {
+		ks = append(ks, k)
+	}
+	sort.Strings(ks)
+	return text, strings.Join(ks, "+")
+}
+
+// SkipHangs is the Classify hook of checks for which a non-returning engine call is not their
+// property's subject (C05 owns it): the root is skipped and reported as a cap.
+func SkipHangs(desc, output string, hang bool) (string, string) {
+	text, _ := DescribeRisky(desc)
+	what := "an engine call crashed the worker process"
+	if hang {
+		what = "an engine call did not return"
+	}
+	return "", what + " while searching a root, which was skipped (termination is C05's subject): " + text
 }
 
 // Trans is one executed transition: the history, the live execution after its last call, and what
@@ -148,6 +208,13 @@ func DefaultKey(t *Trans) string {
 // Search explores all histories of one root up to cfg.Depth for each regime.
 func Search(root *world.Root, cfg Cfg) Stats {
 	var st Stats
+	if cfg.Ctx != nil {
+		db, _ := json.Marshal(riskyDesc{Root: root, Depth: cfg.Depth, Events: cfg.Events, Regimes: cfg.Regimes, Bound: cfg.ChoiceBound})
+		if !cfg.Ctx.Risky(string(db)) {
+			return st
+		}
+		defer cfg.Ctx.Done()
+	}
 	keyf := cfg.Key
 	if keyf == nil {
 		keyf = DefaultKey
